@@ -16,7 +16,7 @@ META = dict(
     level='proof',
     rule='random configurations with 1 or 2 loci, 1-3 demes, 1-3 epochs; cdf evaluated on grids that contain exact '
          'epoch boundaries, 0, duplicates, unsorted points; quantiles at several levels; pdf at interior points; '
-         'non-trivial = >= 3 states and (>= 2 epochs or two loci)',
+         'non-trivial = >= 3 states and (>= 2 epochs or two loci); plus two families: many short epochs inside one quantile search step, and size trajectories given as discretised events against the same demography written out epoch by epoch',
     trusted_base=['PT2/PT3 (transition probabilities of the CTMC; coalescent = that CTMC) textbook, modelled',
                   'fixExp ~ exp (driver selftest)', 'scipy.linalg.expm / IEEE doubles'],
     assumptions=['cdf compared at 1e-9 absolute; quantile through |F_model(q_real) - q| <= 1.2e-5 (precision of the '
@@ -174,13 +174,64 @@ def quantile_family(ctx, i):
         ctx.count('quantiles')
 
 
+def trajectory_family(ctx, i, params=None):
+    """a size trajectory given as a DISCRETISED event (exponential growth from a start time > 0 or 0, finite or infinite window)
+    against the same demography written out epoch by epoch with the documented rule (inside the window every grid step takes the
+    mean of the trajectory at its two ends; before the window the earlier size, after it the last step's value): cdf, pdf and
+    quantiles of the two Coalescents are the same numbers"""
+    pg = C.import_phasegen()
+    rng = random.Random(f'{ctx.seed}-c03-traj-{i}')
+    if params is None:
+        params = dict(n=rng.choice([2, 2, 3]), x0=rng.choice([0.5, 1.0, 2.0]), g=rng.choice([-1.0, -0.5, 0.5, 0.8]),
+                      start=rng.choice([0.0, 0.25, 0.5, 1.0]), steps=rng.choice([2, 4, 8, None]), step=rng.choice([0.125, 0.25]),
+                      before=rng.choice([1.0, 3.0]), cls=rng.choice(['ExponentialPopSizeChanges', 'ExponentialRateChanges', 'DiscretizedRateChange']))
+    P = params
+    s0, st = P['start'], P['step']
+    end = None if P['steps'] is None else s0 + P['steps'] * st
+    f = lambda t: P['x0'] * math.exp(-P['g'] * (t - s0))
+    kw = dict(start_time=s0, step_size=st, **({} if end is None else dict(end_time=end)))
+    with C.LogCapture():
+        if P['cls'] == 'ExponentialPopSizeChanges':
+            ev = pg.ExponentialPopSizeChanges(initial_size={'pop_0': P['x0']}, growth_rate=P['g'], **kw)
+        elif P['cls'] == 'ExponentialRateChanges':
+            ev = pg.ExponentialRateChanges(initial_rate={'pop_0': P['x0']}, growth_rate=P['g'], **kw)
+        else:
+            ev = pg.DiscretizedRateChange(trajectory=f, pop='pop_0', **kw)
+        c_ev = pg.Coalescent(n=P['n'], demography=pg.Demography(events=[pg.PopSizeChange(pop='pop_0', time=0, size=P['before']), ev]),
+                             parallelize=False, pbar=False)
+        horizon = end if end is not None else s0 + 40 * st          # compare inside [0, horizon) when the window never ends
+        sizes, t = {0.0: P['before']}, s0
+        while t < horizon - 1e-12:
+            sizes[t] = (f(t) + f(t + st)) / 2
+            t += st
+        c_ex = pg.Coalescent(n=P['n'], demography=pg.Demography(pop_sizes={'pop_0': sizes}), parallelize=False, pbar=False)
+        ts = sorted({s0 * 0.5, s0, s0 + st / 2, s0 + st, s0 + 1.5 * st, (horizon + s0) / 2, horizon - st / 4} |
+                    ({horizon, horizon + 0.5, horizon + 2.0} if end is not None else set()))
+        ts = [x for x in ts if x >= 0]
+        a, b = np.asarray(c_ev.tree_height.cdf(ts), dtype=float), np.asarray(c_ex.tree_height.cdf(ts), dtype=float)
+        qa = qb = None
+        if end is not None:
+            qa, qb = [float(c_ev.tree_height.quantile(q)) for q in (0.25, 0.5, 0.9)], [float(c_ex.tree_height.quantile(q)) for q in (0.25, 0.5, 0.9)]
+    ctx.case(dict(kind='trajectory', params=P, times=ts, cdf_event=a.tolist(), cdf_explicit=b.tolist()), repr(sorted(P.items(), key=str)))
+    ctx.count(f'trajectory:{P["cls"]}'); ctx.count('trajectory:start>0' if s0 > 0 else 'trajectory:start=0')
+    ctx.count('trajectory:finite-window' if end is not None else 'trajectory:infinite-window')
+    if not np.allclose(a, b, rtol=1e-9, atol=1e-12):
+        ctx.violation('trajectory:cdf', trajectory_params=P, times=ts, discretised_event=a.tolist(), explicit_epochs=b.tolist(),
+                      oracle='the same demography written out epoch by epoch (endpoint mean on every grid step)')
+    elif qa is not None and not np.allclose(qa, qb, rtol=1e-6, atol=1e-9):
+        ctx.violation('trajectory:quantile', trajectory_params=P, q=[0.25, 0.5, 0.9], discretised_event=qa, explicit_epochs=qb)
+
+
 def run(ctx):
     import check
     check.pmap(ctx, 'props.c03', 'one', list(range(64 if ctx.quick else 200)), case_timeout=200 if ctx.quick else 1500)
     check.pmap(ctx, 'props.c03', 'quantile_family', list(range(96 if ctx.quick else 600)), case_timeout=200)
+    check.pmap(ctx, 'props.c03', 'trajectory_family', list(range(48 if ctx.quick else 300)), case_timeout=200)
 
 
 def replay(ctx, payload):
+    if 'trajectory_params' in payload:
+        return trajectory_family(ctx, 0, params=payload['trajectory_params'])
     pg = C.import_phasegen()
     if 'real_cdf_at_returned' in payload:
         cfg = conv.cfg_from_json(payload['cfg'])
